@@ -41,6 +41,7 @@ def run(ck: Check):
 
     n = 1500 if ck.tier == "quick" else 30000
     total_equal, total = 0, 0
+    cov_reqs = list(sreqs)
     for (shift, size, cnt) in ((0, 14, n), (7, 30, n // 5)):
         ck.seed += shift
         reqs = ck.gen("plan", ["--n", cnt, "--size", size])
@@ -49,8 +50,10 @@ def run(ck: Check):
         planlib.count_distribution(ck, reqs, res)
         total_equal += res["plans_equal"]
         total += res["requests"]
+        cov_reqs += reqs[:300] if ck.tier == "quick" else reqs[:3000]
     ck.extra_cov["impl_plan_equals_model_plan"] = f"{total_equal}/{total}"
-    coverage_statistic(ck, reqs[:400] if ck.tier == "quick" else reqs[:3000])
+    # corpus + a sample of both generated streams
+    coverage_statistic(ck, cov_reqs)
     if ck.tier == "thorough":
         ck.leanchecker(MODULES)
     if ck.is_broken():
@@ -59,15 +62,20 @@ def run(ck: Check):
 
 
 def coverage_statistic(ck, reqs):
-    """Model-only: which share of the model's plan (statements + functions) is covered by the proved theorem
-    `c03_partial_checked` (unreachable statements, unused functions, quiet stores to never-read variables)
-    with all of its decidable hypotheses evaluated to true by the driver; the rest (flow-sensitive dead stores,
-    initialisers with pure user calls) rests on the tie and the differential."""
+    """Model-only: which share of the model's plan (statements + functions) is covered by the proved theorems with
+    all of their decidable hypotheses evaluated to true by the driver:
+    * `c03_full_checked` (the liveness simulation, T5, with calls of pure user functions): EVERY plan contained in
+      the model plan of a program is covered when `live=1`, i.e. `modelOkB root facts` (distinct ids, global
+      consistency of the facts, the statement-by-statement liveness conditions `rootOkB` for the model's own plan);
+    * `c03_partial_checked` (the older static theorem: unreachable statements, unused functions, quiet stores to
+      never-read variables) for comparison."""
     if not reqs or not os.path.exists(DRIVER):
         return
     inp = ("\n".join("cover " + r.split(" ", 1)[1] for r in reqs) + "\n").encode()
     p = sh([DRIVER, "plan"], inp=inp, timeout=1800)
     tot = proved = ok = n = 0
+    live_items = live_n = 0
+    why = {"distinct": 0, "global": 0, "fnsok": 0, "rootok": 0}
     for line in p.stdout.decode(errors="replace").splitlines():
         d = planlib.parse(line)
         if "total" not in d:
@@ -76,9 +84,22 @@ def coverage_statistic(ck, reqs):
         tot += int(d["total"])
         proved += int(d["proved"])
         ok += int(d["ok"])
+        if d.get("live") == "1":
+            live_n += 1
+            live_items += int(d["total"])
+        for k in why:
+            if d.get(k) == "0":
+                why[k] += 1
+    ck.extra_cov["plan_items_covered_by_c03_full_checked"] = \
+        f"{live_items}/{tot} over {n} programs (all decidable hypotheses hold on {live_n})"
     ck.extra_cov["plan_items_covered_by_c03_partial_checked"] = f"{proved}/{tot} over {n} programs (hypotheses hold on {ok})"
-    if n and ok < n:
-        ck.notes.append(f"c03_partial_checked: decidable hypotheses failed on {n - ok} of {n} sampled programs")
+    if n and live_n < n:
+        ck.notes.append(f"c03_full_checked: decidable hypotheses (modelOkB) failed on {n - live_n} of {n} sampled programs "
+                        f"(failing condition counts: {why})")
+    if n and why["distinct"] + why["global"] + why["fnsok"]:
+        # plan-independent consistency conditions on the facts: these must hold for every program of the real front end
+        ck.broken.append({"kind": "model-hypothesis-failed",
+                          "what": f"C03 global consistency conditions of the facts failed on generated programs: {why}"})
 
 
 def oracle_fails_on(ck, source):
